@@ -181,6 +181,9 @@ class Check:
         gaps = [o for o in inc if 'Unsupported' in o.get('detail', '') or 'HarnessError' in o.get('detail', '')]
         for o in gaps[:5]:
             self.harness_errors.append(f"encoding cannot follow the code: {o['name']}: {o.get('detail', '')[:160]}")
+        if viol and not self.violations and not self.known_hits and not self.harness_errors:
+            # an obligation failed but no counterexample was put to the real build: neither a pass nor a confirmed violation
+            self.harness_errors.append(f'{len(viol)} obligation(s) violated without a replayed counterexample, e.g. {viol[0]["name"][:120]}: {str(viol[0].get("detail", ""))[:120]}')
         if self.violations:
             return EXIT_VIOLATION
         if self.harness_errors:
